@@ -14,7 +14,9 @@ Observed(m, r) ==
     /\ \A i \in 1..Len(r.look) : r.look[i] = M!Get(m, i)
     /\ M!Unique(m)
 
-StepOfImpl(m, r) == LET s == M!CallStep(m, r) IN
+\* "end": the execution is over and its table / object released: nothing json-c allocated during it remains
+StepOfImpl(m, r) == IF r.op = "end" THEN [ok |-> r.leak = 0, st |-> m] ELSE
+                    LET s == M!CallStep(m, r) IN
                     IF s.ok THEN [ok |-> Observed(s.om, r), st |-> s.om] ELSE [ok |-> FALSE, st |-> m]
 TraceLog == ndJsonDeserialize(IOEnv.TRACE)
 T == INSTANCE TraceBase WITH Log <- TraceLog, InitSt <- <<>>, StepOf <- StepOfImpl, ResyncAtNew <- TRUE
